@@ -403,6 +403,34 @@ def run_shard(ctx):
                                 sig = {'direction': 'print', 'kind': 'integer' if isint else 'decimal', 'failure': 'printed-not-read-back',
                                        'feat': ('exponent' if 'e' in repr(exp) else 'plain') + ('+long' if len(s) > 18 else '')}
                                 det = {'value': repr(exp), 'printed': txt, 'read_back': repr(v2)[:80], 'dialect': dialect}
+                            else:
+                                # ... and inside a statement of another kind (each statement class prints its own cells): one position per number
+                                from mindsdb_sql.parser import ast as A_
+                                posn = ['insert', 'update', 'in', 'func', 'where', 'insert-2nd-row'][(ni + neg) % 6]
+                                c_ = A_.Constant(exp)
+                                tree_, get_ = {
+                                    'insert': (lambda: A_.Insert(table=A_.Identifier('t'), columns=[A_.Identifier('a'), A_.Identifier('b')], values=[[c_, A_.Constant(7)]]), lambda t: t.values[0][0]),
+                                    'insert-2nd-row': (lambda: A_.Insert(table=A_.Identifier('t'), columns=[A_.Identifier('a')], values=[[A_.Constant(1)], [c_]]), lambda t: t.values[1][0]),
+                                    'update': (lambda: A_.Update(table=A_.Identifier('t'), update_columns={'a': c_}, where=A_.BinaryOperation('=', args=[A_.Identifier('b'), A_.Constant(1)])), lambda t: t.update_columns['a']),
+                                    'in': (lambda: A_.Select(targets=[A_.Star()], from_table=A_.Identifier('t'), where=A_.BinaryOperation('in', args=[A_.Identifier('a'), A_.Tuple([A_.Constant(1), c_])])), lambda t: t.where.args[1].items[1]),
+                                    'func': (lambda: A_.Select(targets=[A_.Function('f', args=[A_.Identifier('a'), c_])]), lambda t: t.targets[0].args[1]),
+                                    'where': (lambda: A_.Select(targets=[A_.Star()], from_table=A_.Identifier('t'), where=A_.BinaryOperation('=', args=[A_.Identifier('a'), c_])), lambda t: t.where.args[1]),
+                                }[posn]
+                                acc.count('number_printed_inside_statements')
+                                try:
+                                    txt3 = tree_().to_string()
+                                    n3 = get_(parse_sql(txt3, dialect))
+                                    if type(n3).__name__ == 'UnaryOperation' and type(n3.args[0]).__name__ == 'Constant':
+                                        v3 = -n3.args[0].value
+                                    else:
+                                        v3 = n3.value if type(n3).__name__ == 'Constant' else ('not-a-constant', type(n3).__name__)
+                                    ok3 = type(v3) is type(exp) and v3 == exp
+                                except Exception as e3:
+                                    txt3, v3, ok3 = locals().get('txt3', '?'), 'rejected:' + type(e3).__name__, False
+                                if not ok3:
+                                    sig = {'direction': 'print', 'kind': 'integer' if isint else 'decimal', 'failure': 'printed-not-read-back', 'position': posn,
+                                           'feat': ('exponent' if 'e' in repr(exp) else 'plain') + ('+long' if len(s) > 18 else '')}
+                                    det = {'value': repr(exp), 'printed': str(txt3)[:200], 'read_back': repr(v3)[:80], 'dialect': dialect}
                 except Exception as e:
                     sig = {'direction': 'parse', 'kind': 'integer' if isint else 'decimal', 'failure': 'rejected:' + type(e).__name__,
                            'feat': ('neg+' if neg else '') + ('leading-zero' if s.startswith('0') and len(s) > 1 else 'plain'),
